@@ -21,14 +21,30 @@ From Cell2V Require Import Common.Tac Common.ListX Common.AList.
 
 Definition cap : nat := 999.              (* sche.QueueSize *)
 
-Inductive kind := KOk | KPanic.           (* what a posted closure does when it runs *)
+(* What a closure panics WITH.  recover() hands the value to doTask's deferred handler as an
+   interface{}; the handler only formats it ("%v"; fmt itself catches a panicking Error() /
+   String() method) and logs the stack.  The dynamic type matters to anything that would do
+   more with it (comparing two interface values of the same non-comparable type panics):
+     comparable      PString "..."   PErrorPtr errors.New   PInt 42   PErrStruct (struct error)
+                     PNilDeref / PIndex (runtime.Error from a real nil dereference / index)
+                     PNil  panic(nil) (a *runtime.PanicNilError since Go 1.21)
+                     PBadError / PBadStringer  (pointer whose Error() / String() panics)
+     not comparable  PSliceErr (named slice type with Error(), like validator.ValidationErrors)
+                     PRawSlice []int   PMap map[string]int   PStructSlice struct{Code; Args []interface{}}
+                     PFunc func()      PArrOfSlice [1][]int *)
+Inductive pval :=
+| PString | PErrorPtr | PInt | PErrStruct | PNilDeref | PIndex | PNil | PBadError | PBadStringer
+| PSliceErr | PRawSlice | PMap | PStructSlice | PFunc | PArrOfSlice.
+
+(* what a posted closure does when it runs; KPanic = panic("a string") *)
+Inductive kind := KOk | KPanic | KPanicV (v : pval).
 Definition cid := (nat * nat)%type.       (* poster thread, sequence number of the Post call *)
 Definition item := (cid * kind)%type.
 
 Inductive res := ROk | RPanic.            (* how a piece of Go code terminates *)
 
 Definition run_closure (k : kind) : res :=
-  match k with KOk => ROk | KPanic => RPanic end.
+  match k with KOk => ROk | KPanic | KPanicV _ => RPanic end.
 
 (* doTask: defer func(){ recover() }(); t.cb() *)
 Definition do_task (k : kind) : res :=
@@ -136,6 +152,14 @@ Definition reachable (progs : list (list kind)) (ws : bool) (s : st) : Prop :=
   exists sched, s = run_sched (init progs ws) sched.
 
 Definition quiescent (s : st) : Prop := forall t, tstep s t = None.
+
+(* forgetting what closures panic with (Proofs.v: [tstep] commutes with it) *)
+Definition kerase (k : kind) : kind := match k with KOk => KOk | _ => KPanic end.
+Definition item_erase (it : item) : item := (fst it, kerase (snd it)).
+Definition poster_erase (p : poster) : poster := mkP (p_next p) (map kerase (p_rest p)).
+Definition st_erase (s : st) : st :=
+  mkSt (map item_erase (queue s)) (stopped s) (stop_pending s) (alive s) (map poster_erase (posters s))
+       (map item_erase (executed s)) (accepted s) (rejected s) (escaped s).
 
 (* ------------------------------------------------------------------ Part 1i *)
 (* Task ids.  Post builds  t := &RunTask{id: runtaskidservice.AllocId(), cb: cb}  BEFORE the
@@ -622,6 +646,8 @@ Inductive op :=
                                             one prepared Builder over the same functions *)
 | OShare (c l r : Z)                     (* chain c over the SHARED list l: r = 0 waterfall.Sche(s, list, final),
                                             1 the prepared builder's Do(), 2 Simple(list, final), 3 ExecAndWait(list, final) *)
+| OTaskPanics (v : pval)                 (* the tasks of chains / lists declared from here on that panic (Beh _ _ true) do so
+                                            with this value (default: a string); no effect on what must happen *)
 | OConcS (mode ns rounds : Z) (tasks : list beh).
                                          (* ns schedulers with the real Handler, concurrently; on each, [rounds] chains one
                                             after the other; ALL ns*rounds chains over one shared slice (mode 0) / each
@@ -702,7 +728,7 @@ Definition total_posts (ops : list op) : nat :=
 Definition in_range (lo x hi : Z) : bool := (lo <=? x) && (x <? hi).
 
 Definition has_panic (progs : list (list kind)) : bool :=
-  existsb (existsb (fun k => match k with KPanic => true | KOk => false end)) progs.
+  existsb (existsb (fun k => match k with KOk => false | _ => true end)) progs.
 
 (* completes exactly once and returns *)
 Definition settles (b : beh) : bool :=
@@ -716,9 +742,13 @@ Definition valid_op (o : op) : bool :=
   | OChain c _ | OChainB c _ | OSimple c _ | OWait c _ => 0 <=? c
   | OMgrGet n | OMgrDel n => in_range 0 n 8
   | OFire c i k => (0 <=? c) && (0 <=? i) && (0 <=? k)
-  | OConc m progs => in_range 0 m 5 && Nat.leb (length progs) 64
-                     && (in_range 0 m 2 || negb (has_panic progs))
-  | OConcN m np n => in_range 0 m 5 && in_range 0 np 65 && in_range 0 n 20001
+  (* mode 5: the selector loop a RunService runs (MultiSelector + FuncSelector over GetChanTask
+     calling DoTask), its goroutine owned - and guarded - by the harness; the real RunService
+     starts its own goroutine, which nothing can guard: no panicking closures there *)
+  | OConc m progs => in_range 0 m 6 && Nat.leb (length progs) 64
+                     && (in_range 0 m 2 || (m =? 5) || negb (has_panic progs))
+  | OConcN m np n => in_range 0 m 6 && in_range 0 np 65 && in_range 0 n 20001
+  | OTaskPanics _ => true
   | OConcW m _ => in_range 0 m 2
   | OConcReg t g => in_range 0 t 5001 && in_range 1 g 33
   | OSetId v => in_range 0 v two32
@@ -1115,6 +1145,7 @@ Definition w_op (w : wst) (o : op) : wst * list sev :=
       let '(m, id) := m_get (w_mgr w) n in (w_set_mgr w m, [SMgr id])
   | OMgrDel n => (w_set_mgr w (m_del (w_mgr w) n), [])
   | OSetId v => (w_set_ctr w v, [])
+  | OTaskPanics _ => (w, [])
   | OConc _ _ | OConcN _ _ _ | OConcW _ _ | OConcReg _ _ | OConcS _ _ _ _ => (w, [])
   end.
 
